@@ -282,7 +282,11 @@ func checkPages(sc *Scenario, w, l *OpResult, active []int) []Issue {
 				}
 				nProbe++
 				v, _ := strconv.Atoi(m[1])
-				if v == 9 && n != 9 {
+				lit := e.ProbeLiteral
+				if lit == 0 {
+					lit = 9
+				}
+				if v == lit && n != lit {
 					continue // inactive literal
 				}
 				nActive++
@@ -294,7 +298,7 @@ func checkPages(sc *Scenario, w, l *OpResult, active []int) []Issue {
 		if e.Conserve && nProbe != e.Probes {
 			out = append(out, Issue{"counter:probe-count", "in-flow-probe", fmt.Sprintf("%d probe texts drawn, document has %d", nProbe, e.Probes)})
 		}
-		if n != 9 && nActive != len(active) {
+		if lit := e.ProbeLiteral; n != 9 && n != lit && nActive != len(active) {
 			out = append(out, Issue{"counter:pages", "in-flow-probe-stale", fmt.Sprintf("%d probes are active but %d show a page total (the others still show the literal)", len(active), nActive)})
 		}
 	}
